@@ -561,7 +561,7 @@ func (e *Engine) frameChecker(x *Exec, fr *Frame, con *Contract, pre *SpecEnv) f
 				}
 			}
 		case "call":
-			if ex.Name == "cursor" || ex.Name == "fpos" || ex.Name == "cursorsBelow" {
+			if ghostFields[ex.Name] || ex.Name == "cursorsBelow" {
 				continue // ghost state: no concrete stores
 			}
 			if ex.Name == "deref" {
